@@ -854,6 +854,8 @@ def make_adapter_lock_pub(
         DEPRECATED: use `make_adapter_locks_pub` instead.
     """
     pubkey = _pubkey(pubkey)
+    # the decrypted signature covers the message selected by sigflags
+    append_sigflags = '' if sigflags == '00' else f'push x{sigflags} concat'
 
     return Script.from_src(f'''
         # required push by unlocking script: tweak scalar t #
@@ -873,6 +875,7 @@ def make_adapter_lock_pub(
         # decrypt adapter sig #
         @sa @R @t decrypt_adapter_sig
         concat
+        {append_sigflags}
 
         # check sig #
         push x{pubkey.hex()}
